@@ -179,6 +179,8 @@ class Census:
                     l = locs[0] if locs else None
                 if self.GX(b, s.bb, div if div is not None else (ops[0] if ops else None), v):
                     return self._auto(s, "divisor compared before use")
+                if div is not None and self.taint.captured_len_guarded(b, div):
+                    return self._auto(s, "divisor is the length of a captured slice, compared in the enclosing function before the closure is created")
                 return self._open(s, "divisor %s may be zero" % v, bool(v and v.taint))
             if kind == "OverflowNeg":
                 return self._open(s, "negation of %s" % vals[0], vals[0].taint)
